@@ -16,11 +16,12 @@ import (
 
 // Damage describes what is done to the closed, settled image.
 type Damage struct {
-	Current  string `json:"current"`  // keep, remove, garbage
-	Manifest string `json:"manifest"` // keep, remove, truncate, garbage
-	Frac     uint32 `json:"frac"`     // truncation point / garbage seed
-	Blocks   int    `json:"blocks"`   // number of data blocks to damage
-	BlockSel uint64 `json:"block_sel"`
+	Current    string `json:"current"`               // keep, remove, garbage
+	Manifest   string `json:"manifest"`              // keep, remove, truncate, garbage
+	Frac       uint32 `json:"frac"`                  // truncation point / garbage seed
+	FilterOnly bool   `json:"filter_only,omitempty"` // damage filter blocks instead of data blocks
+	Blocks     int    `json:"blocks"`                // number of data blocks to damage
+	BlockSel   uint64 `json:"block_sel"`
 }
 
 type physEntry struct {
@@ -175,6 +176,12 @@ func (r *runner) applyDamage(dmg *Damage) map[blockID]bool {
 			data, _ := d.Data(fd)
 			t, err := decode.ParseTable(data)
 			if err != nil {
+				continue
+			}
+			if dmg.FilterOnly {
+				if t.Filter != nil {
+					cands = append(cands, cand{fd, -1, *t.Filter})
+				}
 				continue
 			}
 			for i, b := range t.DataBlocks {
